@@ -192,8 +192,7 @@ theorem Cov_setAdd {S : List String} {n : String} {f : Fld} (h : Cov frags vars 
 
 theorem Cov_seenAfterCall {mine callee : List String} {f : Fld} (h : Cov frags vars (seenAfterCall mine callee) f) :
     Cov frags vars mine f ∨ Cov frags vars callee f := by
-  unfold seenAfterCall at h
-  split at h
+  rcases seenAfterCall_cases mine callee with h' | h' <;> rw [h'] at h
   · exact Or.inl h
   · exact Or.inr h
 
